@@ -246,3 +246,15 @@ pub fn attempts_of_g<RR: RuleType>(
     }
     (p, n)
 }
+
+// ---------------------------------------------------------------- E (entry-point wrappers)
+/// `Tracker::collect` (builds the pest `Error` through core::fmt: out of CBMC's reach) is cut by ending the
+/// path: harnesses under E decide only what the wrappers do when they return `Ok` — "never success with
+/// unread input" — and say nothing about inputs they reject.
+pub fn t_collect<'i, R: RuleType>(_t: Tracker<'i, R>) -> pest_typed::error::Error<R>
+where
+    'i: 'i,
+{
+    nd::assume(false);
+    loop {}
+}
